@@ -85,3 +85,21 @@ Definition tag_newton (c : ncase) : N :=
 Definition exact_newton (c : ncase) : bool :=
   forallb (fun s => let '(M, r, (dx, dy, xn, yn)) := s in mrepr M && vrepr r && vrepr dx && vrepr dy && vrepr xn && vrepr yn)
           (nc_run c).
+
+(* ---- unit compute_xn: StepResult._compute_xn on ARBITRARY binary64 inputs (not only grid points).  The model
+   computes x - dx exactly, the code rounds it; they must agree on every component the model clips (the value is
+   then exactly the bound) and the code's value must lie in [lb, ub] everywhere. ---- *)
+Definition check_xn (c : vec * vec * list bnd * list bnd * vec) : bool :=
+  let '(x, dx, lb, ub, xn) := c in
+  Nat.eqb (length xn) (length x)
+  && forallb (fun b => b)
+       (map4 (fun t (l u : bnd) xni =>
+                let '(xi, di) := t in
+                let m := fst (xn1 xi di l u) in
+                lb_le l xni && le_ub xni u
+                && (if qeqb m (xi - di) then true else qeqb xni m))
+             (map2 pair x dx) lb ub xn).
+Definition tag_xn (c : vec * vec * list bnd * list bnd * vec) : nat :=
+  let '(x, dx, lb, ub, xn) := c in
+  length (filter (fun b => b) (map4 (fun t (l u : bnd) (_ : Q) => let '(xi, di) := t in negb (qeqb (fst (xn1 xi di l u)) (xi - di)))
+                                    (map2 pair x dx) lb ub xn)).
